@@ -29,6 +29,9 @@ type vfMuxCaller struct {
 	gotOpid  string
 	gotMark  string
 	errType  int
+	// the peer emitted this caller's own response while the request was registered and before the
+	// caller's deadline timer had fired
+	deliverable string
 }
 
 type vfMuxState struct {
@@ -127,6 +130,22 @@ func vfMuxMake(scn string) (func(), func(*vsched.Exec) (string, *vsched.Violatio
 			}
 			mark := fmt.Sprintf("m%d", len(st.emitted))
 			st.emitted = append(st.emitted, op+"/"+mark)
+			if c >= 0 && c < cfg.n {
+				cl := st.callers[c]
+				if reg, ok := tr.registry.(*fRegistryImpl); ok && cl.started && !cl.done && cl.deliverable == "" {
+					if _, registered := reg.channels[vfOpKey(cl.opid)]; registered {
+						fired := false
+						for _, tm := range vsched.Current().TimersOwnedBy(cl.tid) {
+							if !tm.Pending() {
+								fired = true
+							}
+						}
+						if !fired {
+							cl.deliverable = mark
+						}
+					}
+				}
+			}
 			p.inbound = append(p.inbound, vfFrame(map[string]string{"_opid": op, "_cid": "x"}, []byte(mark))...)
 			st.framesK++
 			return true
@@ -289,6 +308,22 @@ func vfMuxMake(scn string) (func(), func(*vsched.Exec) (string, *vsched.Violatio
 				viol("C01/registry-leak", fmt.Sprintf("%d registrations left after all callers returned", n))
 			}
 		}
+		if cfg.wstall < 0 && cfg.fstall < 0 && cfg.werr < 0 {
+			// the peer only ever sent well-formed frames and nothing failed
+			if !st.tr.isOpen || !st.pipe.open {
+				viol("C06/transport-closed-by-benign-input", "the client transport closed itself although the peer sent only well-formed frames and no fault was injected: no later frame can be delivered")
+			}
+			if e.EarlyTimers == 0 {
+				// every timer fired at quiescence, i.e. after the reader had been given the chance to
+				// hand over everything the peer had sent: a response emitted while its request was
+				// registered and not yet timed out must have reached its caller
+				for i, c := range st.callers {
+					if c.deliverable != "" && !strings.HasPrefix(c.outcome, "ok:") {
+						viol("C06/response-not-delivered", fmt.Sprintf("caller%d ended with %q although the peer sent its response (%s) while the request was registered and before its deadline", i, c.outcome, c.deliverable))
+					}
+				}
+			}
+		}
 		if len(st.pipe.inbound) != 0 {
 			viol("C06/unconsumed-input", fmt.Sprintf("%d inbound bytes never consumed although the transport is open and idle", len(st.pipe.inbound)))
 		}
@@ -366,4 +401,10 @@ func init() {
 			return 2, true
 		},
 	})
+}
+
+// vfOpKey is the registry key of an op id header value.
+func vfOpKey(opid string) uint64 {
+	v, _ := strconv.ParseUint(opid, 10, 64)
+	return v
 }
